@@ -344,6 +344,9 @@ macro_rules! variant {
                 fn generator(&self) -> G {
                     Box::new(GObj(Gen::new()))
                 }
+                fn generator_default(&self) -> G {
+                    Box::new(GObj(Gen::default()))
+                }
                 fn validity(&self, n: u32) -> Validity {
                     validity(DataLengthValidity::new::<$buckets>(n))
                 }
